@@ -12,7 +12,7 @@
    refinement (`_chiral_morgan`) is not covered by theorems: search in harness/checks/C01.py. *)
 From Coq Require Import ZArith List Bool Permutation Sorting.Sorted String.
 From Model Require Import PyBase PyHash Graph Morgan Stereo StereoRegistry Writer ChiralMorgan.
-From Proofs Require Import MorganProofs WriterInvProofs WriterStereoExt BfsExt BfsExt2 TraverseOrderExt InsertionOrderExt InsertionOrderExt2 ChiralMorganProofs StereoProofs StereoOrderExt StereoOrderExt2 RegistryRemapExt EnvLaws CtMapOrderExt AllStereoExt SameStereo EqHashExt ChiralDiscreteExt ChiralOrderExt.
+From Proofs Require Import MorganProofs WriterInvProofs WriterStereoExt BfsExt BfsExt2 TraverseOrderExt InsertionOrderExt InsertionOrderExt2 ChiralMorganProofs StereoProofs StereoOrderExt StereoOrderExt2 RegistryRemapExt EnvLaws CtMapOrderExt AllStereoExt SameStereo EqHashExt ChiralDiscreteExt ChiralOrderExt MorganChargeRefuted.
 Import ListNotations.
 Open Scope Z_scope.
 
@@ -912,3 +912,22 @@ Theorem C01_canonical_eq_hash_renumbering_uniform :
     mol_eq (canon_of o) d' d = true /\ mol_hash (canon_of o) str_hash d' = mol_hash (canon_of o) str_hash d.
 Proof. exact canonical_eq_hash_renumbering_uniform. Qed.
 Print Assumptions C01_canonical_eq_hash_renumbering_uniform.
+
+(* REFUTED (genuine defect of the pinned code, known finding canon-differs:hash-collision-charge--1--2): with CPython's hash,
+   hash(-1) = hash(-2) = -2, so Element.__hash__ gives ONE invariant to every two atoms that differ only in charge -1 / -2 *)
+Theorem C01_atom_invariant_charge_collision_refuted :
+  forall (num : Z) (iso : option Z) (rad : bool) (hy : option Z) (st : option bool) (r : bool),
+  py_atom_hash (mkAtom num iso (-1) rad hy st) r = py_atom_hash (mkAtom num iso (-2) rad hy st) r.
+Proof. exact atom_invariant_charge_collision. Qed.
+Print Assumptions C01_atom_invariant_charge_collision_refuted.
+
+Theorem C01_atom_invariant_injective_refuted :
+  ~ (forall (a a' : atom) (r : bool), py_atom_hash a r = py_atom_hash a' r -> a_chg a = a_chg a').
+Proof. exact atom_invariant_injective_refuted. Qed.
+Print Assumptions C01_atom_invariant_injective_refuted.
+
+(* the witness [Cl-2].[Cl-]: atoms_order ties two different atoms *)
+Theorem C01_atoms_order_charge_tie_refuted :
+  atoms_order hash_ztuple (fun _ => false) chg_g = Ok [(1, 1); (2, 1)].
+Proof. exact atoms_order_charge_tie. Qed.
+Print Assumptions C01_atoms_order_charge_tie_refuted.
